@@ -1273,11 +1273,16 @@ impl ByteCodeGenerator {
                 }
             }
             mir::Instruction::Delay(max, src, time) => {
+                // The destination register carries the declared buffer length into the
+                // `Delay` instruction, so every delay of a function uses its own size. It is
+                // allocated before the operands are released, so it never aliases them.
+                let dst = self.vregister.add_newvalue(&dst);
                 let s = self.find(&src);
                 let t = self.find(&time);
-
-                let dst = self.vregister.add_newvalue(&dst);
                 funcproto.delay_sizes.push(max);
+                let pos = funcproto.add_new_constant(max);
+                let bytecodes_dst = bytecodes_dst.unwrap_or_else(|| funcproto.bytecodes.as_mut());
+                bytecodes_dst.push(VmInstruction::MoveConst(dst, pos as ConstPos));
                 Some(VmInstruction::Delay(dst, s, t))
             }
             mir::Instruction::Mem(src) => {
